@@ -33,16 +33,21 @@ class Fail(dict):
     pass
 
 
-def oracle(dialect, text):
-    """None = rejected (or empty); 'ok'; or a dict(kind, exc, printed, ...)"""
+def oracle(dialect, text, info=None):
+    """None = rejected (or empty); 'ok'; or a dict(kind, exc, printed, ...).
+    info (optional dict) receives the tree and the text printed first (history-aware observations, tools/harness/printhist.py)"""
     try:
         t = parse(dialect, text)
     except Exception:
         return None
     if t is None:
         return None
+    if info is not None:
+        info['tree'] = t
     try:
         s = t.to_string()
+        if info is not None:
+            info['printed'] = s
         tr = t.to_tree()
         st = str(t)
     except Exception as e:
